@@ -118,6 +118,9 @@ void muggle_evloop_run_select(muggle_event_loop_t *evloop)
 
 				if (ctx->flags & MUGGLE_EV_CTX_FLAG_CLOSED)
 				{
+					// the fd is already in allset when the context was added
+					// by a callback during this pass
+					FD_CLR(ctx->fd, &evloop_select->allset);
 					if (evloop->cb_close)
 					{
 						evloop->cb_close(evloop, ctx);
